@@ -257,9 +257,4 @@ func runCheck(root string, args []string) int {
 	return 0
 }
 
-func runEffectCheck(root, tier string, seed int, evPath string) int {
-	fmt.Println("effect checker not built yet")
-	return 2
-}
-
 var _ = strings.TrimSpace
